@@ -65,7 +65,7 @@ def run_contracts(ctx, contracts, contracts_module):
     t0 = time.time()
     total_concrete = 0
     for c in contracts:
-        if getattr(ctx, 'only', None) and ctx.only not in c.qualname:
+        if getattr(ctx, 'only', None) and ctx.only not in c.key_name:
             continue
         fn = '%s.%s' % (c.module, c.qualname)
         try:
@@ -91,10 +91,10 @@ def run_contracts(ctx, contracts, contracts_module):
                 ctx.engine_unsound = True
                 ctx.notes.append('ENGINE UNSOUND?: %s proved but fails concretely at %s' % (fn, label))
             ctx.confirm_and_report(
-                '%s:concrete' % c.qualname, 'call',
+                '%s:concrete' % c.key_name, 'call',
                 dict(module='pyvc.run', func='replay_contract_case',
                      kwargs=dict(contracts_module=contracts_module, module=c.module,
-                                 qualname=c.qualname, label=label)),
+                                 qualname=c.key_name, label=label)),
                 canonical_input=dict(function=fn, case=label), function=fn,
                 solver_output='refuted obligations: %s' % [r[0] for r in summ['refuted']][:6],
                 text='contract of %s fails on the real code' % fn)
@@ -116,13 +116,21 @@ def run_contracts(ctx, contracts, contracts_module):
                 ctx.obligation(name, fn, 'undecided', 'z3', 0.0,
                                detail='sat (candidate model %s) but not in obligations.lock and no '
                                       'failing concrete input' % str(model)[:200])
-        nlocked = len(locked)
+    # obligations recorded on the baseline tree that were not regenerated (per function, after
+    # all contracts of the function ran)
+    mine = set('%s.%s' % (c.module, c.qualname) for c in contracts)
+    for fn in sorted(mine):
+        locked = set(lock.get(fn, {}).get('proved', []))
+        if getattr(ctx, 'only', None):
+            continue
         have = set(base_name(o['name']) for o in ctx.obligations if o['function'] == fn)
         missing = locked - have
-        if missing and not summ.get('unsupported'):
+        unsupported = any(o['function'] == fn and o['name'].endswith(':symbolic-execution')
+                          for o in ctx.obligations)
+        if missing and not unsupported:
             ctx.notes.append('%s: %d locked obligations not regenerated (code shape changed): %s'
                              % (fn, len(missing), sorted(missing)[:3]))
-            ctx.obligation(c.qualname + ':locked-obligations-missing', fn, 'undecided', 'pyvc', 0.0,
+            ctx.obligation(fn.split('.')[-1] + ':locked-obligations-missing', fn, 'undecided', 'pyvc', 0.0,
                            detail='%d obligations recorded in obligations.lock were not generated'
                                   % len(missing))
     if os.environ.get('VERIF_RELOCK') == '1':
